@@ -1,7 +1,7 @@
 (* EBLIF engine, connectivity clause of C18: the shape of the statement list of a supported document.
      - from the grammar: every statement other than a comment stands inside exactly one
        .model ... .end section ([closed]);
-     - from the reader's own segmentation: in a section the .inputs lines come first, then the
+     - from the conjunct hdr_sorted of supported: in a section the .inputs lines come first, then the
        .outputs lines, then the .clock lines ([hdr_ss], [hdr_body]);
      - the library a section ends up in ([run_lib]); every instance statement lies in a section. *)
 From Coq Require Import List Arith NArith Bool Lia Permutation.
@@ -57,6 +57,7 @@ Qed.
 Fixpoint hdr_ss (ph : nat) (ss : list stmt) : Prop :=
   match ss with
   | [] => True
+  | SComment _ :: r => hdr_ss ph r
   | SModel _ :: r => hdr_ss 0 r
   | SInputs _ :: r => ph = 0 /\ hdr_ss 0 r
   | SOutputs _ :: r => ph <= 1 /\ hdr_ss 1 r
@@ -64,80 +65,16 @@ Fixpoint hdr_ss (ph : nat) (ss : list stmt) : Prop :=
   | _ :: r => hdr_ss 3 r
   end.
 
-Definition phase (md : mode) : nat := match md with MHdr ph => ph | _ => 3 end.
-
-Lemma hdr_ss_weaken ph ss : hdr_ss 3 ss -> hdr_ss ph ss.
-Proof. destruct ss as [|x r]; [auto|]. destruct x; cbn; auto; intros [H _]; lia. Qed.
-
-Lemma after_info_hdr s extra r md :
-  after_info s extra = Ok (r, md) -> r = [s] /\ (md = MInfo \/ md = MPlain).
+(* the reader takes the port lines of a header in any order (BlifRead.cl_hdr); the order is the explicit
+   conjunct [hdr_sorted] of BlifSpec.supported *)
+Lemma hdr_sorted_ss ss : forall ph, hdr_sorted ph ss = true -> hdr_ss ph ss.
 Proof.
-  unfold after_info. destruct extra; [intro H; inversion H; auto|].
-  destruct (has_tok _ _); [discriminate|]. intro H; inversion H; auto.
-Qed.
-
-(* statements of the plain / info / rows handlers: never a header statement, never .model *)
-Definition plain_stmt (x : stmt) : Prop :=
-  match x with SModel _ | SInputs _ | SOutputs _ | SClock _ => False | _ => True end.
-
-Lemma cl_plain_shape l r md : cl_plain l = Ok (r, md) -> Forall plain_stmt r /\ phase md = 3.
-Proof.
-  unfold cl_plain. intro H. destruct l as [|t rest]; [inversion H; auto|].
-  break_match H; try discriminate; inversion H; subst; split; try reflexivity; repeat constructor.
-Qed.
-
-Lemma cl_info_shape l r md : cl_info l = Ok (r, md) -> Forall plain_stmt r /\ phase md = 3.
-Proof.
-  unfold cl_info. intro H. destruct l as [|t rest]; [inversion H; auto|].
-  destruct (str_eqb t k_param).
-  { destruct rest as [|k [|v extra]]; try discriminate. apply after_info_hdr in H as [-> [->| ->]]; split; try reflexivity; repeat constructor. }
-  destruct (str_eqb t k_cname).
-  { destruct rest as [|n extra]; try discriminate. apply after_info_hdr in H as [-> [->| ->]]; split; try reflexivity; repeat constructor. }
-  destruct (str_eqb t k_attr).
-  { destruct rest as [|k [|v extra]]; try discriminate. apply after_info_hdr in H as [-> [->| ->]]; split; try reflexivity; repeat constructor. }
-  eapply cl_plain_shape. exact H.
-Qed.
-
-Lemma cl_rows_shape l r md : cl_rows l = Ok (r, md) -> Forall plain_stmt r /\ phase md = 3.
-Proof.
-  unfold cl_rows. intro H. destruct l as [|t rest]; [eapply cl_info_shape; exact H|].
-  destruct (is_row_tok t); [|eapply cl_info_shape; exact H].
-  destruct rest as [|u [|? ?]]; inversion H; subst; split; try reflexivity; repeat constructor.
-Qed.
-
-Lemma hdr_ss_plain r rest : Forall plain_stmt r -> hdr_ss 3 rest -> hdr_ss 3 (r ++ rest).
-Proof.
-  induction 1 as [|x r Hx _ IH]; intro H; cbn [app]; [exact H|].
-  destruct x; cbn in Hx |- *; try contradiction; auto.
-Qed.
-
-Lemma classify_hdr d : forall md ss, classify_from md d = Ok ss -> hdr_ss (phase md) ss.
-Proof.
-  induction d as [|l d IH]; intros md ss H; cbn [classify_from] in H.
-  - destruct md; inversion H; cbn; auto.
-  - apply bind_ok in H as [[s1 md'] [H1 H2]]. apply bind_ok in H2 as [rest [H2 H3]]. inversion H3; subst ss. clear H3.
-    specialize (IH _ _ H2).
-    assert (Hplain : Forall plain_stmt s1 /\ phase md' = 3 -> hdr_ss (phase md) (s1 ++ rest)).
-    { intros [A B]. rewrite B in IH. apply hdr_ss_weaken. apply hdr_ss_plain; assumption. }
-    destruct md; cbn [cl_line] in H1.
-    + (* top *)
-      unfold cl_top in H1. destruct l as [|t toks]; [inversion H1; subst; exact IH|].
-      destruct (str_eqb t k_hash); [inversion H1; subst; cbn; exact IH|].
-      destruct (str_eqb t k_model).
-      * destruct toks as [|nm [|? ?]]; inversion H1; subst. cbn. exact IH.
-      * destruct (has_tok _ _); inversion H1; subst. exact IH.
-    + (* header *)
-      unfold cl_hdr in H1. destruct l as [|t toks]; [apply Hplain; eapply cl_plain_shape; exact H1|].
-      destruct (str_eqb t k_inputs && Nat.eqb ph 0) eqn:E1.
-      { inversion H1; subst. apply andb_true_iff in E1 as [_ E1]. apply Nat.eqb_eq in E1. cbn. auto. }
-      destruct (str_eqb t k_outputs && Nat.leb ph 1) eqn:E2.
-      { inversion H1; subst. apply andb_true_iff in E2 as [_ E2]. apply Nat.leb_le in E2. cbn. auto. }
-      destruct (str_eqb t k_clock && Nat.leb ph 2) eqn:E3.
-      { inversion H1; subst. apply andb_true_iff in E3 as [_ E3]. apply Nat.leb_le in E3. cbn. auto. }
-      apply Hplain. eapply cl_plain_shape. exact H1.
-    + apply Hplain. eapply cl_plain_shape. exact H1.
-    + apply Hplain. eapply cl_rows_shape. exact H1.
-    + apply Hplain. eapply cl_info_shape. exact H1.
+  induction ss as [|x r IH]; intros ph H; [exact I|].
+  destruct x; cbn [hdr_sorted] in H; cbn [hdr_ss]; try (apply IH; exact H);
+    apply andb_true_iff in H as [H1 H2]; (split; [|apply IH; exact H2]).
+  - apply Nat.eqb_eq. exact H1.
+  - apply Nat.leb_le. exact H1.
+  - apply Nat.leb_le. exact H1.
 Qed.
 
 Fixpoint hdr_body (ph : nat) (b : list stmt) : Prop :=
@@ -165,7 +102,7 @@ Lemma hdr_body_of nm ss : forall ph cur,
 Proof.
   induction ss as [|x r IH]; intros ph cur Hh Hnd Hc; [exact I|]. rewrite body_of_cons.
   destruct x; cbn [hdr_ss model_names] in Hh, Hnd, Hc.
-  - (* comment *) specialize (IH 3 cur Hh Hnd Hc). destruct (str_eqb cur nm); [apply hdr_body_weaken|]; exact IH.
+  - (* comment *) exact (IH ph cur Hh Hnd Hc).
   - (* .model *)
     inversion Hnd as [|? ? Hn1 Hn2]; subst.
     destruct (str_eqb cur nm) eqn:E.
